@@ -31,6 +31,7 @@ import (
 
 type gen struct {
 	r     interface{ Intn(int) int }
+	r2    interface{ Shuffle(int, func(int, int)) }
 	wl4   [4]byte
 	wl6   string
 	wl6nb string
@@ -137,9 +138,21 @@ func (g *gen) admit(fr map[string]interface{}, ev vh.Event) {
 	if b, _ := fr["wildcard"].(bool); b {
 		wl = append(wl, "*")
 	}
-	fn, err := api.VerifAccessControlFunc(wl, vh.StrSeq(fr["lans"]))
+	lans := vh.StrSeq(fr["lans"])
+	switch fr["junk"] {
+	case "wl":
+		junk := []string{"10.1.2.300", "192.168.1.0/24", "localhost", "", "::g", " 127.0.0.1", "0.0.0.0/0", "any"}
+		wl = append(wl, junk[g.r.Intn(len(junk))])
+		g.r2.Shuffle(len(wl), func(i, j int) { wl[i], wl[j] = wl[j], wl[i] })
+	case "lan":
+		junk := []string{"11", "lan", "", "10.0.0.0/8", "172.16", "*", "0", "all"}
+		lans = append(lans, junk[g.r.Intn(len(junk))])
+		g.r2.Shuffle(len(lans), func(i, j int) { lans[i], lans[j] = lans[j], lans[i] })
+	}
+	ev["wlcfg"], ev["lancfg"] = wl, lans
+	fn, err := api.VerifAccessControlFunc(wl, lans)
 	if err != nil {
-		ev["res"] = "cfgerr:" + err.Error()
+		ev["cfgerr"] = err.Error()
 		return
 	}
 	remote := g.remote(fr["addr"].(string))
@@ -239,7 +252,7 @@ func (g *gen) target(fr map[string]interface{}, ev vh.Event) {
 
 func run(sc vh.Scenario, dir string, rec *vh.Rec) {
 	r := vh.Rng(sc.Seed)
-	g := &gen{r: r, keys: map[string]*pocec.PrivateKey{}, plots: map[string]pocutil.Hash{}}
+	g := &gen{r: r, r2: r, keys: map[string]*pocec.PrivateKey{}, plots: map[string]pocutil.Hash{}}
 	g.wl4 = [4]byte{byte(193 + r.Intn(20)), byte(r.Intn(256)), byte(r.Intn(256)), byte(2 + r.Intn(250))}
 	g.wl6 = fmt.Sprintf("2001:db8:%x::%x", 1+r.Intn(60000), 2+r.Intn(60000))
 	g.wl6nb = fmt.Sprintf("2001:db8:%x::%x", 1+r.Intn(60000), 2+r.Intn(60000))
